@@ -173,7 +173,9 @@ func (h *VHist) entsDigest(es []*Entity) string {
 	return strings.Join(l, " ")
 }
 
-func isRead(k string) bool { return k == "get" || k == "getin" || k == "feed" || k == "list" || k == "countlist" || k == "countfeed" }
+func isRead(k string) bool {
+	return k == "get" || k == "getin" || k == "feed" || k == "list" || k == "countlist" || k == "countfeed"
+}
 
 // modelRead is the model-side digest of a read op.
 func (h *VHist) modelRead(m *model.World, op VOp) string {
